@@ -193,6 +193,24 @@ func runHTTP(p *Plan, o *obs, srv *rpc.Server) {
 		o.https = append(o.https, &httpRes{rec: newRecWriter(w.start)})
 	}
 	startReleasers(p, w)
+	// request contexts that are cancelled from outside at a planned instant
+	bases := make([]context.Context, len(p.Units))
+	for ui := range p.Units {
+		bases[ui] = context.Background()
+		if at := p.Units[ui].CancelNS; at > 0 {
+			ctx, cancel := context.WithCancel(context.Background())
+			bases[ui] = ctx
+			ui := ui
+			w.sched.Go(fmt.Sprintf("cancel:%d", ui), func() {
+				w.sleepUntil(at)
+				w.sched.Gate(fmt.Sprintf("cancel:%d", ui))
+				w.mu.Lock()
+				w.cancelled[ui] = w.now()
+				w.mu.Unlock()
+				cancel()
+			})
+		}
+	}
 	for ui := range p.Units {
 		ui := ui
 		u := &p.Units[ui]
@@ -201,7 +219,7 @@ func runHTTP(p *Plan, o *obs, srv *rpc.Server) {
 			w.sleepUntil(u.AtNS)
 			w.sched.Gate(fmt.Sprintf("req:%d", ui))
 			body := []byte(unitText(u, func(string) string { return "" }))
-			ctx := context.WithValue(context.Background(), http.ServerContextKey,
+			ctx := context.WithValue(bases[ui], http.ServerContextKey,
 				&http.Server{WriteTimeout: time.Duration(u.WriteTimeoutMS) * time.Millisecond})
 			if u.CtxTimeoutMS > 0 {
 				var cancel context.CancelFunc
